@@ -598,9 +598,8 @@ impl<'a> Compiler<'a> {
                 self.current_index.pop_subindex();
             }
             CardBody::Repeat(rep) => {
-                self.current_index.push_subindex(0);
+                // compile_subexpr numbers `n` as child 0, same as Card::get_child
                 self.compile_subexpr(slice::from_ref(&rep.n))?;
-                self.current_index.pop_subindex();
                 let i = &rep.i;
                 let repeat = &rep.body;
                 self.scope_begin();
@@ -920,8 +919,13 @@ impl<'a> Compiler<'a> {
                 self.push_instruction(Instruction::PopTable);
             }
             CardBody::DynamicCall(jump) => {
-                self.compile_subexpr(jump.args.0.as_slice())?;
-                self.current_index.push_subindex(jump.args.0.len() as u32);
+                // child 0 is the function, the arguments are children 1..=n (see Card::get_child)
+                for (i, card) in jump.args.0.iter().enumerate() {
+                    self.current_index.push_subindex(i as u32 + 1);
+                    self.process_card(card)?;
+                    self.current_index.pop_subindex();
+                }
+                self.current_index.push_subindex(0);
                 self.process_card(&jump.function)?;
                 self.current_index.pop_subindex();
                 self.push_instruction(Instruction::CallFunction);
